@@ -3,7 +3,9 @@
 //! canonicalised output) for the Lean driver.  See /verif/DESIGN.md section 5.
 mod c06;
 mod c07;
+mod c11;
 mod c13;
+mod c15;
 mod c16;
 mod c17;
 mod c18;
@@ -124,7 +126,9 @@ fn main() {
         match prop.as_str() {
             "C06" => c06::replay(&prop, &line, &mut out),
             "C07" | "C08" => c07::replay(&prop, &line, &mut out),
+            "C11" => c11::replay(&line, &mut out),
             "C13" => c13::replay(&line, &mut out),
+            "C15" => c15::replay(&line, &mut out),
             "C16" => c16::replay(&line, &mut out),
             "C17" => c17::replay(&line, &mut out),
             "C18" => c18::replay(&line, &mut out),
@@ -144,7 +148,9 @@ fn main() {
     match prop.as_str() {
         "C06" => c06::run(&prop, &opts, &mut out),
         "C07" | "C08" => c07::run(&prop, &opts, &mut out),
+        "C11" => c11::run(&opts, &mut out),
         "C13" => c13::run(&opts, &mut out),
+        "C15" => c15::run(&opts, &mut out),
         "C16" => c16::run(&opts, &mut out),
         "C17" => c17::run(&opts, &mut out),
         "C18" => c18::run(&opts, &mut out),
